@@ -222,8 +222,8 @@ func TestC18(t *testing.T) {
 	dir := outDir(t)
 	rep := newReport("C18", "(a) text forms: ParseVersion / Version.String / ParsePhase / Phase.String tables (edge and random strings and values over the whole uint64 range) compared with the model; "+
 		"(b) framing: real compression.Marshaler stacks (depth 1-3, thresholds below/at/above the payload size) with a toy compressor over a verbatim innermost marshaler - outputs and, for arbitrary/mutated inputs, what reaches the innermost decoder or the error, compared byte for byte with the model; "+
-		"(c) round trips of random resources (unicode/empty/YAML-hostile strings, label/annotation maps, finalizers, versions incl. >= 2^63, both phases, nanosecond timestamps) through the protobuf wire form, YAML metadata, and store marshaler stacks protobuf|zstd|AES-GCM in every order on both sides of the size threshold; "+
-		"(d) decoders fed truncated/bit-flipped/random bytes under recover (no panic; success only with a re-encodable resource), every single-byte corruption of an encrypted record and a wrong key must be detected; non-trivial = resource with maps+finalizers, or a malformed input")
+		"(c) round trips of random resources (unicode/empty/YAML-hostile strings, label/annotation maps, finalizers, versions incl. >= 2^63, both phases, nanosecond timestamps) through the protobuf wire form, YAML metadata (and structurally odd whole-resource YAML documents into protobuf.YAMLResource), and store marshaler stacks protobuf|zstd|AES-GCM in every order on both sides of the size threshold; "+
+		"(d) decoders fed truncated/bit-flipped/random bytes under recover (no panic; success only with a re-encodable resource), every single-byte corruption of an encrypted record, a wrong key and every key one bit away from the right one (at each of the 32 byte positions) must be detected; non-trivial = resource with maps+finalizers, or a malformed input")
 
 	r := newRng(seed(), "C18")
 
@@ -573,6 +573,30 @@ func TestC18(t *testing.T) {
 			viol("yaml:panic", "panic: "+p)
 		}
 
+		// the whole-resource YAML decoder (protobuf.YAMLResource) on structurally odd documents built around this
+		// resource's own metadata: sections missing, duplicated, of the wrong node kind, extra keys
+		if mdOut, err := yaml.Marshal(res.Metadata()); err == nil {
+			ind := "  " + strings.ReplaceAll(strings.TrimRight(string(mdOut), "\n"), "\n", "\n  ") + "\n"
+			md := "metadata:\n" + ind
+			sp := "spec:\n  value: 1\n"
+
+			for _, doc := range []string{
+				md + sp, sp + md, md + md, sp + sp, md, sp, md + "other:\n  a: 1\n", md + "spec: 7\n", "metadata: x\n" + sp, md + "spec: [1, 2]\n",
+				"- a\n- b\n", "", "metadata:\n" + ind + "spec:\n  value: 1\nspec:\n  value: 2\n", "? [a]\n: {b: 1}\nspec:\n  value: 1\n", md + sp + "---\n" + md + sp,
+			} {
+				_, pp := safely("YAMLResource decoder", func() error {
+					var yr protobuf.YAMLResource
+
+					return yaml.Unmarshal([]byte(doc), &yr)
+				})
+				if pp != "" {
+					viol("yaml:resource-decoder-panic", "decoder-panic: "+pp+" on "+fmt.Sprintf("%q", doc))
+				}
+
+				rep.hit("yaml_resource_structural")
+			}
+		}
+
 		// store marshaler stacks
 		base, _ := (store.ProtobufMarshaler{}).MarshalResource(res) //nolint:errcheck
 		size := len(base)
@@ -670,6 +694,22 @@ func TestC18(t *testing.T) {
 							}
 						}
 					}
+				}
+
+				// every key one bit away from the right one, at every byte position, must be refused
+				if spec.Layers[0] == "aes:0" {
+					for k := range keys[0] {
+						near := [][]byte{append([]byte(nil), keys[0]...), keys[1]}
+						near[0][k] ^= byte(1 << r.intn(8))
+
+						if stn, err := buildStack(spec, near); err == nil {
+							if _, err := stn.UnmarshalResource(enc); err == nil {
+								viol("stack:wrong-key-undetected", fmt.Sprintf("wrong-key: a key differing from the right one only in byte %d decrypts the record", k))
+							}
+						}
+					}
+
+					rep.hit("near_keys")
 				}
 
 				other := stackSpec{Layers: append([]string{"aes:1"}, spec.Layers[1:]...)}
